@@ -177,16 +177,13 @@ fn slfu_clear_max_cost() {
     accounting!(s, exp);
 }
 
-#[kani::proof]
-#[kani::unwind(8)]
-fn slfu_fill_sample() {
+/// fill_sample with a CONCRETE input length m (so that Vec growth inside the tracker's pushes is decided by
+/// constant propagation: the input vector is created with spare capacity and never reallocates)
+fn fill_sample_case(m: usize) {
     let (mut s, t) = any_slfu(N);
     kani::assume(t.samples <= NMAX + 2);
-    let m: usize = kani::any();
-    kani::assume(m <= 2);
     let ik: [u64; 2] = kani::any();
     let ic: [i64; 2] = kani::any();
-    // capacity reserved up front: no reallocation inside fill_sample (Vec growth is alloc's business, not the tracker's)
     let mut input: Vec<(u64, i64)> = Vec::with_capacity(NMAX + 4);
     let mut i = 0;
     while i < 2 {
@@ -219,4 +216,23 @@ fn slfu_fill_sample() {
     }
     let exp = t;
     accounting!(s, exp);
+    core::mem::forget(out);
+}
+
+#[kani::proof]
+#[kani::unwind(8)]
+fn slfu_fill_sample_0() {
+    fill_sample_case(0)
+}
+
+#[kani::proof]
+#[kani::unwind(8)]
+fn slfu_fill_sample_1() {
+    fill_sample_case(1)
+}
+
+#[kani::proof]
+#[kani::unwind(8)]
+fn slfu_fill_sample_2() {
+    fill_sample_case(2)
 }
